@@ -443,9 +443,12 @@ DelimsOf(d) ==
            [] OTHER -> {cCOMMA, cEQ}
 DotSegs == {<<cDOT>>, <<cDOT, cDOT>>}
 CookieOctet(c) == c = 33 \/ c \in 35..43 \/ c \in 45..58 \/ c \in 60..91 \/ c \in 93..126
-Fragment(d, v) ==
+(* A path value containing '/', '{' or '}' is representable on a raw request line (%2F ...), so a pipeline that percent-encodes  *)
+(* must get it through; it is not where the case holds the raw text (explicit cases: the template is filled by str.format and     *)
+(* the text is re-parsed) nor where the gateway hands over an already decoded path (WSGI PATH_INFO cannot tell %2F from '/').     *)
+FragmentAt(d, v, explicit, pmode) ==
     LET ts == Texts(v) IN
-    CASE d.loc = "path" /\ \E t \in ts : Has(t, {cSLASH, cLCB, cRCB}) -> "unsendable-path-value"
+    CASE d.loc = "path" /\ (explicit \/ pmode = "dec") /\ \E t \in ts : Has(t, {cSLASH, cLCB, cRCB}) -> "unsendable-path-value"
       [] d.style = "json" -> IF d.loc \in {"header", "cookie"} /\ \E t \in Texts(v) : \E i \in 1..Len(t) : t[i] > 126 \/ t[i] < 32
                              THEN "non-ascii-field" ELSE IF d.loc = "cookie" THEN "cookie-octet" ELSE "T"
       [] v.k # "prim" /\ Len(v.items) = 0 -> "empty-composite"
@@ -460,11 +463,12 @@ Fragment(d, v) ==
       [] d.loc = "header" /\ d.dialect = "swagger2" /\ d.type = "array" /\ d.style \in {"ssv", "tsv"} /\ \E t \in ts : t = <<>> -> "field-whitespace"
       [] d.loc = "cookie" /\ \E t \in ts : \E i \in 1..Len(t) : ~CookieOctet(t[i]) /\ t[i] # cPCT -> "cookie-octet"
       [] OTHER -> "T"
+Fragment(d, v) == FragmentAt(d, v, FALSE, "pct")
 
 -----------------------------------------------------------------------------
 (* verdict of the parameter part of a request: "T" recovered, "F" not recovered, "U" outside the fragment / ambiguous *)
 ParamVerdict(d, v, w, alsoDecoded) ==
-    LET fr == Fragment(d, v)
+    LET fr == FragmentAt(d, v, alsoDecoded, w.pmode)
         want == Expected(v)
         \* explicit cases may hold already percent-encoded path text: its single percent-decoding is accepted too (DESIGN App. D)
         alt == IF alsoDecoded /\ d.loc = "path"
